@@ -97,7 +97,7 @@ def trivia_variants(keys, max_dev):
                     if i + 1 < len(flat) and flat[i + 1] is not None:
                         parts.append(sub.get(i, " "))
                 parts.append(sub.get("trail", ""))
-                out.append(("trivia %s" % {str(p): k for p, k in sub.items()}, keys, "".join(parts)))
+                out.append(("trivia%d %s" % (n, {str(p): k for p, k in sub.items()}), keys, "".join(parts)))
     return out
 
 
@@ -150,7 +150,9 @@ def run(tier):
                 sels.append(("cli", n, normalization))
         if not canonical:
             # trivia documents: one matching selection per mode (the selection space is covered on the canonical ones)
-            sels = [("derive", opnames[0], "none"), ("cli", None, "none"), ("derive", camel(opnames[-1]), "rust")]
+            # (an operation whose name is its own snake_case form collides with its module unless normalized: C02's matter)
+            sels = [("derive", opnames[0], "none"), ("cli", None, "rust" if any(snake(n) == n for n in opnames) else "none"),
+                    ("derive", camel(opnames[-1]), "rust")]
         for mode, name, normalization in sels:
             for entry in (("file", "string") if canonical or mode == "derive" else ("file",)):
                 cases.append({"desc": desc, "keys": keys, "text": text, "mode": mode, "name": name, "norm": normalization, "entry": entry})
@@ -236,11 +238,17 @@ def run(tier):
         # conformance subset: cli, file entry, one per trivia class / selection class
         if c["mode"] == "cli" and c["entry"] == "file":
             key = (c["text"], c["name"], c["norm"])
-            klass = (re.sub(r"\d+", "", c["desc"])[:40], c["name"] is None, c["norm"])
-            if klass not in to_compile and len(to_compile) < (120 if tier == "quick" else 500):
+            # class = (base document, kinds of trivia and kind of position, selection class); single-deviation trivia
+            # classes are compiled first (the compiler's own handling of the literal - line endings, BOM - is per kind)
+            d = c["desc"]
+            prio = 0 if d.startswith("trivia1") else (1 if not d.startswith("trivia") else 2)
+            klass = (prio, tuple(c["keys"]) if prio != 1 else (), re.sub(r"'\d+'", "'inner'", d) if prio != 1 else re.sub(r"\d+", "", d)[:40],
+                     c["name"] is None, c["norm"])
+            if klass not in to_compile:
                 to_compile[klass] = (c, r, ops)
     compiled = []
-    for klass, (c, r, ops) in to_compile.items():
+    chosen = sorted(to_compile.items(), key=lambda kv: kv[0][0])[:(160 if tier == "quick" else 700)]
+    for klass, (c, r, ops) in chosen:
         mods = [(snake(o[2]), norm(o[2], c["norm"])) for o in ops]
         cid = farm.add(Case(r["tokens"], mods, prelude="pub type Date = String;", resp=False, vars_=True))
         compiled.append((c, cid, ops))
